@@ -452,3 +452,21 @@ pub fn escape_twin_trees() -> Vec<E> {
     }
     out
 }
+
+/// Names (files, patterns) that agree in their first N bytes for N around every power of two up to
+/// 65536 and differ only at the very end (a key clipped to a fixed length takes them for one).
+pub fn long_prefix_twin_trees() -> Vec<E> {
+    let mut out = vec![];
+    for n in [63usize, 64, 255, 256, 1023, 1024, 4095, 4096, 4097, 8192, 65535, 65536] {
+        for unit in ["x", "é"] {
+            let stem = unit.repeat(n / unit.len() + 1);
+            let (a, b) = (format!("{stem}.001"), format!("{stem}.002"));
+            out.push(E::and(E::A(Act::FPrint(a.clone())), E::A(Act::FPrint(b.clone()))));
+            out.push(E::or(E::A(Act::FPrint0(b.clone())), E::A(Act::FPrint0(a.clone()))));
+            out.push(E::and(E::or(E::T(Tst::Name(a.clone())), E::T(Tst::Name(b.clone()))), E::A(Act::Print0)));
+            out.push(E::or(E::T(Tst::IPath(b.clone())), E::T(Tst::IPath(a.clone()))));
+            out.push(E::or(E::T(Tst::Pool(a.clone())), E::T(Tst::Pool(b.clone()))));
+        }
+    }
+    out
+}
